@@ -115,7 +115,7 @@ Fixpoint contains (s p : list Z) : bool :=
 Inductive binop :=
 | Eq | Ne | Lt | Le | Gt | Ge | And | Or | Xor
 | Add | Sub | Mul | Div | Mod
-| StartsWith | EndsWith | Contains | In.
+| StartsWith | EndsWith | Contains | InList.
 Inductive unop := Not | IsNull | IsNotNull | Neg.
 
 (** [EVar i] stands for both [FilterExpression::Variable] (value of column [i] of the row) and
@@ -201,7 +201,7 @@ Section Eval.
   Definition cmp2 (f : Z -> bool) (l r : value) : option value :=
     option_map (fun c => VBool (f c)) (compare_values l r).
 
-  (** [eval_binary_op] ([In] is handled by [eval], as in the code, and yields [None] here) *)
+  (** [eval_binary_op] ([InList] is handled by [eval], as in the code, and yields [None] here) *)
   Definition eval_binop (op : binop) (l r : value) : option value :=
     match op with
     | And => bool2 andb l r
@@ -221,7 +221,7 @@ Section Eval.
     | StartsWith => str2 starts_with l r
     | EndsWith => str2 ends_with l r
     | Contains => str2 contains l r
-    | In => None
+    | InList => None
     end.
 
   Definition is_null (o : option value) : bool :=
@@ -251,7 +251,7 @@ Section Eval.
             | None => None
             | Some rv =>
                 match op with
-                | In => match rv with
+                | InList => match rv with
                         | VList items => Some (VBool (existsb (values_equal lv) items))
                         | _ => None
                         end
